@@ -150,3 +150,22 @@ def t6(ctx):
             bad.append(e)
     reads_ok = True
     yield Ob(key_of("C18-T6", b.path, "no-header-effect"), not bad, "no store to header / cursor / discarded / node words (%d found)" % len(bad), b.loc(), {"at": [ctx.loc(e) for e in bad][:3]})
+
+
+@rule("C18-T7", "C18", 1, "truncate replaces the backing store (new Vec / new mapping, the old one is freed or unmapped) and refreshes only this Arena value's cached "
+      "ptr / cap: it may run only when no other Arena value - a clone, or the clone inside an owned handle - shares the Memory, i.e. under a guard refs() == 1; "
+      "otherwise every other handle keeps a dangling base pointer (use after free from safe code)", also=("C13",))
+def t7(ctx):
+    b = arena_truncate(ctx)
+    ev, res = ctx.eval(b, no_inline=(r"Memory::<.*>::truncate$",))
+    mt = [e for e in res.log if e["kind"] == "call" and re.search(r"Memory::<.*>::truncate$", e["callee"])]
+    if len(mt) != 1:
+        yield Ob(key_of("C18-T7", b.path, "call"), False, "expected one Memory::truncate call", b.loc())
+        return
+    fs = ctx.facts_of(ev, mt[0])
+    ok = False
+    for f in fs:
+        if f[0] == "cmp" and f[1] in ("Le", "Lt", "Eq") and "refs" in show(f[2]) and is_const(f[3]) and ((f[1] == "Lt" and f[3].c <= 2) or (f[1] in ("Le", "Eq") and f[3].c <= 1)):
+            ok = True
+    yield Ob(key_of("C18-T7", b.path, "exclusive"), ok, "Memory::truncate is reached only when refs() == 1: %s" % ("guard found" if ok else "NO guard on the reference count - clones and owned handles keep the old base pointer"),
+             ctx.loc(mt[0]), {"facts": sorted(show(f) for f in fs if f[0] == "cmp")[:6]})
